@@ -265,6 +265,11 @@ func runCollectAll(p *Prog, r *Report) {
 						if miss == "" && roleOfType(info.TypeOf(rs.X)) == roleOTHER {
 							// position test on a collection that spans several files
 							ast.Inspect(ifs.Cond, func(c ast.Node) bool {
+								if call, ok := c.(*ast.CallExpr); ok && lastSel(call.Fun) == "ContainsPos" {
+									if vid, ok := rs.Value.(*ast.Ident); ok && vid.Name != "_" && mentionsVar(fn, call.Fun, info.ObjectOf(vid), 2) {
+										miss = exprStr(ifs.Cond) + " (a position test on the element: several items of " + cmpText(rs.X) + " may contain the position, e.g. targets that share a definition range)"
+									}
+								}
 								if sel, ok := c.(*ast.SelectorExpr); ok && (sel.Sel.Name == "Byte" || sel.Sel.Name == "Line" || sel.Sel.Name == "Column") {
 									if tv := info.TypeOf(sel.X); tv != nil && isHclPos(tv) {
 										miss = exprStr(ifs.Cond) + " (a position test: " + cmpText(rs.X) + " holds items of several files and is not ordered by byte offset)"
@@ -321,6 +326,13 @@ func dependsOnElement(fn *Func, rs *ast.RangeStmt, as []ast.Node) bool {
 	for _, a := range as {
 		if s, ok := a.(*ast.AssignStmt); ok {
 			for _, rhs := range s.Rhs {
+				// the element is itself the handler that is called (a chain of strategies,
+				// each of which may end the chain): its result is a verdict, not a miss
+				if call, ok := ast.Unparen(rhs).(*ast.CallExpr); ok {
+					if id, ok := ast.Unparen(call.Fun).(*ast.Ident); ok && info.ObjectOf(id) == vo {
+						continue
+					}
+				}
 				if mentionsVar(fn, rhs, vo, 3) {
 					return true
 				}
